@@ -1,19 +1,1056 @@
-//! stub - under construction
+//! Engine `multibuild` (C17): builds are deterministic and independent of each other
+//! (DESIGN.md 5.3).
+//!
+//! One *episode* = one fresh process (`simharness mb-run`) embedding the library: 1-4 simulated
+//! caller threads (real OS threads under the token scheduler of sched.rs), each with a script of
+//! builds. Every build's outcome is compared with the outcome of the same build run alone in a
+//! fresh process (`simharness ref-one`), under another hash seed and clock origin.
+
 use crate::common::*;
-use serde_json::Value;
-pub const RULE: &str = "";
-pub const ASSUMPTIONS: &[&str] = &[];
-pub fn worker(_cfg: &WorkerCfg, _emit: &mut dyn FnMut(Violation)) -> Stats { Stats::default() }
-pub fn replay(_s: &Value) -> Result<Option<Violation>, String> { Err("not built".into()) }
-pub fn shrink(_s: &Value) -> Vec<Value> { vec![] }
-pub fn ref_one(_s: &str) -> i32 { 2 }
+use crate::inctree::{self, Outcome};
+use crate::proggen;
+use crate::rng::{fnv, mix, Rng};
+use crate::sched::{self, Sched, Strategy};
+use crate::simlibc::{self, SimState};
+use serde::{Deserialize, Serialize};
+use serde_json::{json, Value};
+use std::collections::{BTreeMap, BTreeSet};
+use std::io::Write;
+use std::path::PathBuf;
+use std::process::{Command, Stdio};
+
+pub const RULE: &str = "A worker generates a corpus from its seed: ~100 programs in leak-detector families (members share a small name pool - labels, .equ, .set, .def, #define, macros, differing only in case where the namespace is case-insensitive - and about half are built to fail because something is absent: a symbol, an alias, a macro, a define, a device, a second .device, an instruction the device forbids, a capacity) and ~20 include trees (the generator of engine inctree, several trees using the same include names from different directories), plus per-thread private trees one of whose include files is rewritten between builds. Every corpus entry is first built alone in two fresh processes under two hash seeds and clock origins (they must agree). An episode is a fresh process with 1-4 caller threads x scripts of builds: concurrent (uniform / sticky / PCT scheduling at every intercepted libc call and hook site), sequential (whole-operation permutations) or long histories (30-120 builds of few entries, mostly failing, on one or two threads); a third of the episodes cut one or two builds down with an I/O fault on an include. Every non-faulted build must equal its reference byte for byte (images, sizes, messages, error text), the cwd must stay what it was. Non-trivial: a context switch happened inside a build, or two builds shared a thread; distinct by the hash of (scripts, schedule decision sequence).";
+
+pub const ASSUMPTIONS: &[&str] = &[
+    "the reference is the same tree's library run alone in a fresh process (the property is relational: same source, same result)",
+    "caller threads are real OS threads, so thread_local!, LazyLock and std locks behave as in a user's program; only the choice of who runs is simulated",
+    "yield points: every intercepted libc call (getcwd, statx, open, read, close, ...) and the cfg-guarded hook sites in /repo (build entry, between passes, every parsed line, every pass-1/pass-2 item, macro expansion, .device)",
+    "a token holder that blocks on a foreign lock for 2 s of wall time loses the token to the lowest-numbered parked thread; wall time decides when this is noticed, never who runs",
+    "the build hit by an injected fault is exempt (engine inctree judges it); every other build of the episode is judged",
+    "corpus entries that panic or crash in isolation are excluded and counted (a C16 matter)",
+];
+
+// ---------------------------------------------------------------------------------------------
+// scenario
+// ---------------------------------------------------------------------------------------------
+
+#[derive(Serialize, Deserialize, Clone, Debug)]
+pub struct Entry {
+    /// "str" | "file"
+    pub kind: String,
+    /// program text (str)
+    #[serde(default)]
+    pub text: String,
+    /// build_file arguments ("$R" = scratch root; relative = relative to the process cwd)
+    #[serde(default)]
+    pub main: String,
+    #[serde(default)]
+    pub paths: Vec<String>,
+    /// family tag: entries of one family use the same names
+    #[serde(default)]
+    pub family: String,
+    #[serde(default)]
+    pub intent: String,
+    /// for private trees: rewrite this file with this text before building
+    #[serde(default)]
+    pub rewrite: Option<(String, String)>,
+}
+
+#[derive(Serialize, Deserialize, Clone, Debug)]
+pub struct Op {
+    pub entry: String,
+    #[serde(default)]
+    pub rules: Vec<RuleSpec>,
+}
+
+#[derive(Serialize, Deserialize, Clone, Debug)]
+pub struct StrategySpec {
+    /// "sequential" | "uniform" | "sticky" | "pct" | "replay"
+    pub kind: String,
+    #[serde(default)]
+    pub p: u32,
+    #[serde(default)]
+    pub d: u32,
+}
+
+#[derive(Serialize, Deserialize, Clone, Debug)]
+pub struct Scenario {
+    pub engine: String,
+    pub entries: BTreeMap<String, Entry>,
+    /// files of the trees used (scratch-relative path -> text); written before the episode
+    pub files: BTreeMap<String, String>,
+    pub cwd: String,
+    pub threads: Vec<Vec<Op>>,
+    pub strategy: StrategySpec,
+    /// run-length encoded decision list (thread id, count); Some = replay it
+    pub schedule: Option<Vec<(u8, u32)>>,
+    pub sched_seed: u64,
+    pub hash_seed: u64,
+    pub clock: u64,
+    pub mode: String,
+}
+
+#[derive(Serialize, Deserialize, Clone, Debug)]
+pub struct OpResult {
+    pub thread: usize,
+    pub index: usize,
+    pub entry: String,
+    pub invoke: u64,
+    pub ret: u64,
+    pub outcome: Outcome,
+    pub faulted: bool,
+    pub cwd_ok: bool,
+}
+
+#[derive(Serialize, Deserialize, Clone, Debug, Default)]
+pub struct EpisodeOut {
+    pub results: Vec<OpResult>,
+    pub decisions: Vec<(u8, u32)>,
+    pub n_decisions: u64,
+    pub switches: u64,
+    pub switch_sites: BTreeMap<u32, u64>,
+    pub interleaving_hash: u64,
+    pub steps: u64,
+    pub fired: Vec<String>,
+    pub foreign_events: u64,
+    pub replay_divergences: u64,
+    pub error: Option<String>,
+    pub trace_digest: u64,
+}
+
+#[derive(Serialize, Deserialize, Clone, Debug)]
+pub struct RefOut {
+    pub outcome: Outcome,
+    /// (call, path) of the build's intercepted calls, for placing faults
+    pub events: Vec<(String, String)>,
+}
+
+// ---------------------------------------------------------------------------------------------
+// child: one reference build in a fresh process
+// ---------------------------------------------------------------------------------------------
+
+fn run_entry(e: &Entry, root: &str) -> Result<avra_lib::builder::BuildResult, String> {
+    if e.kind == "str" {
+        avra_lib::builder::build_str(&e.text).map_err(|x| x.to_string())
+    } else {
+        let main = PathBuf::from(e.main.replace("$R", root));
+        let paths: BTreeSet<PathBuf> = e.paths.iter().map(|p| PathBuf::from(p.replace("$R", root))).collect();
+        avra_lib::builder::build_file(main, paths).map_err(|x| x.to_string())
+    }
+}
+
+fn apply_rewrite(e: &Entry, root: &str) {
+    if let Some((f, t)) = &e.rewrite {
+        let _ = std::fs::write(PathBuf::from(root).join(f), t.replace("$R", root));
+    }
+}
+
+/// stdin: {"entry":…, "root":…, "cwd":…, "hash_seed":…, "clock":…} -> stdout: RefOut
+pub fn ref_one(input: &str) -> i32 {
+    silence_panics();
+    let v: Value = match serde_json::from_str(input) {
+        Ok(v) => v,
+        Err(_) => return 2,
+    };
+    let e: Entry = match serde_json::from_value(v["entry"].clone()) {
+        Ok(e) => e,
+        Err(_) => return 2,
+    };
+    let root = v["root"].as_str().unwrap_or("").to_string();
+    let cwd = v["cwd"].as_str().unwrap_or("").to_string();
+    if std::env::set_current_dir(PathBuf::from(&root).join(&cwd)).is_err() {
+        return 2;
+    }
+    apply_rewrite(&e, &root);
+    let mut st = SimState::new(&root);
+    st.hash_seed = v["hash_seed"].as_u64().unwrap_or(0);
+    st.clock_origin = v["clock"].as_u64().unwrap_or(1_600_000_000);
+    let r2 = root.clone();
+    let run = run_simulated(st, move || run_entry(&e, &r2));
+    let out = RefOut { outcome: Outcome::from(run.result), events: run.state.trace.iter().filter(|x| !x.path.starts_with('<')).map(|x| (x.call.name().to_string(), x.path.clone())).collect() };
+    println!("{}", serde_json::to_string(&out).unwrap());
+    0
+}
+
+// ---------------------------------------------------------------------------------------------
+// child: one episode in a fresh process
+// ---------------------------------------------------------------------------------------------
+
+fn strategy_of(sc: &Scenario, total_ops: usize) -> Strategy {
+    if let Some(s) = &sc.schedule {
+        return Strategy::Replay(sched::unrle(s));
+    }
+    match sc.strategy.kind.as_str() {
+        "sequential" => Strategy::Sequential,
+        "sticky" => Strategy::Sticky(sc.strategy.p.max(1)),
+        "pct" => Strategy::Pct { d: sc.strategy.d.max(1), horizon: (total_ops as u32) * 60 + 20 },
+        _ => Strategy::Uniform,
+    }
+}
+
+/// stdin: {"scenario":…, "root":…} -> stdout: EpisodeOut
+pub fn mb_run(input: &str) -> i32 {
+    silence_panics();
+    let v: Value = match serde_json::from_str(input) {
+        Ok(v) => v,
+        Err(_) => return 2,
+    };
+    let sc: Scenario = match serde_json::from_value(v["scenario"].clone()) {
+        Ok(s) => s,
+        Err(e) => {
+            eprintln!("mb-run: {}", e);
+            return 2;
+        }
+    };
+    let root = v["root"].as_str().unwrap_or("").to_string();
+    let cwd_abs = PathBuf::from(&root).join(&sc.cwd);
+    if std::env::set_current_dir(&cwd_abs).is_err() {
+        return 2;
+    }
+    let cwd_abs = std::env::current_dir().unwrap_or(cwd_abs);
+    let n = sc.threads.len();
+    let total_ops: usize = sc.threads.iter().map(|t| t.len()).sum();
+    let sched = Sched::new(n, strategy_of(&sc, total_ops), sc.sched_seed);
+    let mut st = SimState::new(&root);
+    st.hash_seed = sc.hash_seed;
+    st.clock_origin = sc.clock;
+    st.keep_trace = true;
+    simlibc::install(st);
+    sched.install();
+    let results: std::sync::Arc<std::sync::Mutex<Vec<OpResult>>> = Default::default();
+    let mut handles = vec![];
+    for (tid, script) in sc.threads.iter().enumerate() {
+        let script = script.clone();
+        let entries = sc.entries.clone();
+        let sched = sched.clone();
+        let results = results.clone();
+        let root = root.clone();
+        let cwd_abs = cwd_abs.clone();
+        let h = std::thread::Builder::new()
+            .name(format!("sim{}", tid))
+            .stack_size(64 << 20)
+            .spawn(move || {
+                simlibc::set_active(Some(tid as u32));
+                simlibc::bypass(|| sched.enter(tid));
+                for (index, op) in script.iter().enumerate() {
+                    let e = match entries.get(&op.entry) {
+                        Some(e) => e.clone(),
+                        None => continue,
+                    };
+                    let faulted = !op.rules.is_empty();
+                    let invoke = simlibc::bypass(|| {
+                        // this operation's fault rules, scoped to this thread
+                        let rules: Vec<simlibc::Rule> = op
+                            .rules
+                            .iter()
+                            .filter_map(|r| r.to_rule().ok())
+                            .map(|mut r| {
+                                r.tid = tid as i32;
+                                r
+                            })
+                            .collect();
+                        simlibc::with_state(|st| {
+                            st.rules.retain(|r| r.tid != tid as i32);
+                            st.rules.extend(rules);
+                        });
+                        apply_rewrite(&e, &root);
+                        sched.event_no()
+                    });
+                    let r2 = root.clone();
+                    let res = std::panic::catch_unwind(std::panic::AssertUnwindSafe(|| run_entry(&e, &r2)));
+                    let outcome = Outcome::from(match res {
+                        Ok(r) => Ok(r),
+                        Err(p) => Err(panic_text(p)),
+                    });
+                    let (ret, cwd_ok) = simlibc::bypass(|| {
+                        let cwd_ok = std::env::current_dir().map(|c| c == cwd_abs).unwrap_or(false);
+                        (sched.event_no(), cwd_ok)
+                    });
+                    results.lock().unwrap_or_else(|e| e.into_inner()).push(OpResult { thread: tid, index, entry: op.entry.clone(), invoke, ret, outcome, faulted, cwd_ok });
+                    simlibc::bypass(|| sched.yield_point(tid, sched::SITE_OP_BOUNDARY));
+                }
+                simlibc::bypass(|| sched.finish(tid));
+                simlibc::set_active(None);
+            })
+            .expect("spawn simulated thread");
+        handles.push(h);
+    }
+    sched.start();
+    let sup = sched.supervise(120.0);
+    let mut out = EpisodeOut::default();
+    if let Err(e) = sup {
+        out.error = Some(e);
+        // threads may be stuck: report what we have and leave
+        let g = sched.st.lock().unwrap_or_else(|e| e.into_inner());
+        out.decisions = sched::rle(&g.decisions);
+        out.results = results.lock().unwrap_or_else(|e| e.into_inner()).clone();
+        println!("{}", serde_json::to_string(&out).unwrap());
+        let _ = std::io::stdout().flush();
+        std::process::exit(0);
+    }
+    for h in handles {
+        let _ = h.join();
+    }
+    Sched::uninstall();
+    let state = simlibc::uninstall();
+    {
+        let g = sched.st.lock().unwrap_or_else(|e| e.into_inner());
+        out.decisions = sched::rle(&g.decisions);
+        out.n_decisions = g.decisions.len() as u64;
+        out.switches = g.switches;
+        out.switch_sites = g.switch_sites.clone();
+        out.interleaving_hash = g.interleaving_hash;
+        out.foreign_events = g.foreign_events;
+        out.replay_divergences = g.replay_divergences;
+        out.steps = g.event_no;
+    }
+    if let Some(st) = state {
+        out.fired = st.trace.iter().filter(|e| e.rule >= 0).map(|e| format!("t{} {} {} {}", e.tid, e.call.name(), e.path, errno_name(e.errno))).collect();
+        out.trace_digest = trace_digest(&st.trace);
+    }
+    let mut r = results.lock().unwrap_or_else(|e| e.into_inner()).clone();
+    r.sort_by_key(|x| (x.thread, x.index));
+    out.results = r;
+    println!("{}", serde_json::to_string(&out).unwrap());
+    0
+}
+
+// ---------------------------------------------------------------------------------------------
+// parent side helpers
+// ---------------------------------------------------------------------------------------------
+
+fn child_json(sub: &str, input: &Value, timeout: f64) -> Result<Value, String> {
+    let exe = std::env::current_exe().map_err(|e| e.to_string())?;
+    let mut child = Command::new(exe).arg(sub).stdin(Stdio::piped()).stdout(Stdio::piped()).stderr(Stdio::null()).spawn().map_err(|e| e.to_string())?;
+    {
+        let mut si = child.stdin.take().unwrap();
+        let _ = si.write_all(serde_json::to_string(input).unwrap().as_bytes());
+    }
+    let mut out = child.stdout.take().unwrap();
+    let reader = std::thread::spawn(move || {
+        let mut s = String::new();
+        use std::io::Read;
+        let _ = out.read_to_string(&mut s);
+        s
+    });
+    let start = now_secs();
+    let status = loop {
+        match child.try_wait() {
+            Ok(Some(s)) => break s,
+            Ok(None) => {
+                if now_secs() - start > timeout {
+                    let _ = child.kill();
+                    let _ = child.wait();
+                    return Err("timeout".into());
+                }
+                std::thread::sleep(std::time::Duration::from_micros(200));
+            }
+            Err(e) => return Err(e.to_string()),
+        }
+    };
+    let s = reader.join().unwrap_or_default();
+    if !status.success() {
+        use std::os::unix::process::ExitStatusExt;
+        return Err(format!("crash: status {:?} signal {:?}", status.code(), status.signal()));
+    }
+    serde_json::from_str(s.trim()).map_err(|e| format!("bad child output: {}", e))
+}
+
+pub struct Corpus {
+    pub entries: BTreeMap<String, Entry>,
+    pub files: BTreeMap<String, String>,
+    /// tree id -> its files (scratch-relative)
+    pub tree_files: BTreeMap<String, Vec<String>>,
+    pub refs: BTreeMap<String, RefOut>,
+    pub families: BTreeMap<String, Vec<String>>,
+    /// per thread slot: entry ids of the private tree versions (v0, v1, ...)
+    pub private: Vec<Vec<String>>,
+}
+
+const CWD: &str = "work";
+
+fn write_files(root: &std::path::Path, files: &BTreeMap<String, String>) -> Result<(), String> {
+    let rs = root.to_string_lossy().into_owned();
+    for (p, t) in files {
+        let fp = root.join(p);
+        if let Some(d) = fp.parent() {
+            std::fs::create_dir_all(d).map_err(|e| e.to_string())?;
+        }
+        std::fs::write(&fp, t.replace("$R", &rs)).map_err(|e| format!("{}: {}", p, e))?;
+    }
+    std::fs::create_dir_all(root.join(CWD)).map_err(|e| e.to_string())
+}
+
+fn tree_entry(sc: &inctree::Scenario, family: &str) -> Entry {
+    Entry { kind: "file".into(), text: String::new(), main: sc.main.clone(), paths: sc.paths.clone(), family: family.into(), intent: sc.intent.clone(), rewrite: None }
+}
+
+pub fn gen_corpus(seed: u64, nprog_fam: usize, ntrees: usize) -> Corpus {
+    let mut r = Rng::new(seed);
+    let mut c = Corpus { entries: BTreeMap::new(), files: BTreeMap::new(), tree_files: BTreeMap::new(), refs: BTreeMap::new(), families: BTreeMap::new(), private: vec![] };
+    for f in 0..nprog_fam {
+        let n = r.range(3, 5) as usize;
+        let fam = proggen::family(&mut r, n, &format!("f{}_", f));
+        let mut ids = vec![];
+        for (i, p) in fam.into_iter().enumerate() {
+            let id = format!("p{}_{}", f, i);
+            c.entries.insert(id.clone(), Entry { kind: "str".into(), text: p.text(), main: String::new(), paths: vec![], family: format!("F{}", f), intent: p.intent.clone(), rewrite: None });
+            ids.push(id);
+        }
+        c.families.insert(format!("F{}", f), ids);
+    }
+    // trees: groups of three use the same seed for names/layout decisions where possible, so the
+    // same include names are looked up from different directories
+    for t in 0..ntrees {
+        let layout = inctree::Layout { base: format!("trees/{}/", t), cwd: Some(CWD.into()), w_prefix: format!("t{}_", t), msg_tag: Some(format!("T{}m", t)) };
+        // trees 3k, 3k+1, 3k+2 are one family: same program pool tag through the same seed high bits
+        let fam = t / 3;
+        let tseed = mix(seed, &[0x7EE, fam as u64]) ^ ((t % 3) as u64).wrapping_mul(0x9E3779B97F4A7C15);
+        let sc = inctree::scenario_with(tseed, t as u64, &layout);
+        let id = format!("t{}", t);
+        c.tree_files.insert(id.clone(), sc.files.keys().cloned().collect());
+        for (k, v) in &sc.files {
+            c.files.insert(k.clone(), v.clone());
+        }
+        c.entries.insert(id.clone(), tree_entry(&sc, &format!("T{}", fam)));
+        c.families.entry(format!("T{}", fam)).or_default().push(id);
+    }
+    // private trees, one per thread slot, with versions that rewrite one included file
+    for slot in 0..4usize {
+        let layout = inctree::Layout { base: format!("priv/{}/", slot), cwd: Some(CWD.into()), w_prefix: format!("v{}_", slot), msg_tag: Some(format!("V{}m", slot)) };
+        // a tree that builds and has at least one include is wanted: try a few seeds
+        let mut chosen: Option<inctree::Scenario> = None;
+        for k in 0..12u64 {
+            let mut sc = inctree::scenario_with(mix(seed, &[0x9417, slot as u64, k]), 900 + slot as u64, &layout);
+            sc.config = "free".into();
+            if sc.files.len() >= 2 && sc.intent == "ok" {
+                chosen = Some(sc);
+                break;
+            }
+            if chosen.is_none() && sc.files.len() >= 2 {
+                chosen = Some(sc);
+            }
+        }
+        let sc = match chosen {
+            Some(s) => s,
+            None => continue,
+        };
+        let id0 = format!("v{}_0", slot);
+        c.tree_files.insert(id0.clone(), sc.files.keys().cloned().collect());
+        for (k, v) in &sc.files {
+            c.files.insert(k.clone(), v.clone());
+        }
+        // the file to rewrite: an included file (not main)
+        let victim = sc.files.keys().find(|k| **k != sc.main_file).cloned();
+        let mut ids = vec![];
+        if let Some(victim) = victim {
+            let orig = sc.files[&victim].clone();
+            for ver in 0..3 {
+                let mut e = tree_entry(&sc, &format!("V{}", slot));
+                let text = if ver == 0 { orig.clone() } else { format!("    ldi r20, {}\n{}", 10 + ver, orig) };
+                e.rewrite = Some((victim.clone(), text));
+                let id = format!("v{}_{}", slot, ver);
+                c.tree_files.insert(id.clone(), sc.files.keys().cloned().collect());
+                c.entries.insert(id.clone(), e);
+                ids.push(id);
+            }
+        }
+        c.private.push(ids);
+    }
+    c
+}
+
+fn compute_refs(c: &mut Corpus, root: &str, stats: &mut Stats, emit: &mut dyn FnMut(Violation), seed: u64) {
+    let ids: Vec<String> = c.entries.keys().cloned().collect();
+    for id in ids {
+        let e = c.entries[&id].clone();
+        let a = child_json("ref-one", &json!({"entry": e, "root": root, "cwd": CWD, "hash_seed": 0xA11CEu64, "clock": 1_600_000_000u64}), 60.0);
+        let b = child_json("ref-one", &json!({"entry": e, "root": root, "cwd": CWD, "hash_seed": 0xB0B0B0B0B0u64 ^ seed, "clock": 1_900_000_000u64}), 60.0);
+        stats.count("reference_processes", 2);
+        match (a, b) {
+            (Ok(a), Ok(b)) => {
+                let (a, b): (RefOut, RefOut) = match (serde_json::from_value(a), serde_json::from_value(b)) {
+                    (Ok(a), Ok(b)) => (a, b),
+                    _ => {
+                        stats.harness_errors.push("bad ref-one output".into());
+                        continue;
+                    }
+                };
+                if matches!(a.outcome, Outcome::Panic(_)) {
+                    stats.exclude("corpus entry panics in isolation (a C16 matter)");
+                    c.entries.remove(&id);
+                    continue;
+                }
+                if a.outcome != b.outcome {
+                    // the hash-order / time clause of the property, before any scheduling
+                    emit(Violation {
+                        property: "C17".into(),
+                        engine: "multibuild".into(),
+                        class: "alone-differs-between-hash-seeds".into(),
+                        signature: format!("class=alone-differs-between-hash-seeds kind={}", e.kind),
+                        seed,
+                        expected: "assembling the same source always yields the same result regardless of hash-map iteration order (two fresh processes, two hash seeds and clock origins)".into(),
+                        observed: json!({"seed_a": a.outcome.short(), "seed_b": b.outcome.short()}),
+                        scenario: serde_json::to_value(single_entry_scenario(c, &id)).unwrap(),
+                    });
+                    stats.count("violations_at_reference_stage", 1);
+                }
+                c.refs.insert(id.clone(), a);
+            }
+            (Err(x), _) | (_, Err(x)) => {
+                if x.starts_with("crash") || x == "timeout" {
+                    stats.exclude("corpus entry crashes or hangs in isolation (a C16 matter)");
+                } else {
+                    stats.harness_errors.push(format!("ref-one {}: {}", id, x));
+                }
+                c.entries.remove(&id);
+            }
+        }
+    }
+    // restore version 0 of the private files
+    for ids in &c.private {
+        if let Some(id0) = ids.first() {
+            if let Some(e) = c.entries.get(id0) {
+                apply_rewrite(e, root);
+            }
+        }
+    }
+    c.private = c.private.iter().map(|ids| ids.iter().filter(|i| c.entries.contains_key(*i)).cloned().collect()).collect();
+}
+
+fn single_entry_scenario(c: &Corpus, id: &str) -> Scenario {
+    let mut entries = BTreeMap::new();
+    entries.insert(id.to_string(), c.entries[id].clone());
+    let mut files = BTreeMap::new();
+    if let Some(fs) = c.tree_files.get(id) {
+        for f in fs {
+            files.insert(f.clone(), c.files[f].clone());
+        }
+    }
+    Scenario {
+        engine: "multibuild".into(),
+        entries,
+        files,
+        cwd: CWD.into(),
+        threads: vec![vec![Op { entry: id.to_string(), rules: vec![] }]],
+        strategy: StrategySpec { kind: "sequential".into(), p: 0, d: 0 },
+        schedule: None,
+        sched_seed: 0,
+        hash_seed: 1,
+        clock: 1_700_000_000,
+        mode: "alone".into(),
+    }
+}
+
+/// Draw an episode over the corpus.
+pub fn gen_episode(c: &Corpus, seed: u64) -> Scenario {
+    let mut r = Rng::new(seed);
+    let all: Vec<&String> = c.entries.keys().filter(|k| !k.starts_with('v')).collect();
+    let fams: Vec<&String> = c.families.keys().collect();
+    let mode = match r.below(10) {
+        0..=4 => "concurrent",
+        5 | 6 => "sequential",
+        _ => "long",
+    };
+    let mut threads: Vec<Vec<Op>> = vec![];
+    let pick_from_family = |r: &mut Rng, fam: &str| -> Option<String> {
+        let ids: Vec<&String> = c.families.get(fam)?.iter().filter(|i| c.entries.contains_key(*i)).collect();
+        if ids.is_empty() {
+            None
+        } else {
+            Some(ids[r.usize(ids.len())].clone())
+        }
+    };
+    let strategy;
+    if mode == "long" {
+        let nt = if r.chance(1, 3) { 2 } else { 1 };
+        // few entries, mostly failing, repeated; good builds in between and at the end
+        let failing: Vec<&String> = all.iter().copied().filter(|k| c.refs.get(*k).map(|x| x.outcome.fails()).unwrap_or(false)).collect();
+        let good: Vec<&String> = all.iter().copied().filter(|k| c.refs.get(*k).map(|x| !x.outcome.fails()).unwrap_or(false)).collect();
+        for _ in 0..nt {
+            let len = r.range(30, 120) as usize;
+            let nsub = r.range(1, 3) as usize;
+            let sub: Vec<String> = (0..nsub).filter_map(|_| if failing.is_empty() { None } else { Some(failing[r.usize(failing.len())].clone()) }).collect();
+            let gsub: Vec<String> = (0..2).filter_map(|_| if good.is_empty() { None } else { Some(good[r.usize(good.len())].clone()) }).collect();
+            let mut script = vec![];
+            for i in 0..len {
+                let use_good = gsub.len() > 0 && (i + 1 == len || r.chance(1, 9));
+                let id = if use_good || sub.is_empty() { gsub.get(r.usize(gsub.len().max(1))).cloned() } else { Some(sub[r.usize(sub.len())].clone()) };
+                if let Some(id) = id {
+                    script.push(Op { entry: id, rules: vec![] });
+                }
+            }
+            // finish with every good entry of the families touched
+            for g in &gsub {
+                script.push(Op { entry: g.clone(), rules: vec![] });
+            }
+            threads.push(script);
+        }
+        strategy = if nt == 1 { StrategySpec { kind: "sequential".into(), p: 0, d: 0 } } else { StrategySpec { kind: "sticky".into(), p: 20, d: 0 } };
+    } else {
+        let nt = r.range(1, 4) as usize;
+        // one or two focus families: members are paired on one thread back to back and on
+        // different threads at the same time
+        let focus: Vec<String> = (0..r.range(1, 2)).map(|_| fams[r.usize(fams.len())].clone()).collect();
+        for t in 0..nt {
+            let len = r.range(1, 6) as usize;
+            let mut script = vec![];
+            for _ in 0..len {
+                let id = match r.below(10) {
+                    0..=5 => {
+                        let f = focus[r.usize(focus.len())].clone();
+                        pick_from_family(&mut r, &f)
+                    }
+                    6 => c.private.get(t).and_then(|v| if v.is_empty() { None } else { Some(v[r.usize(v.len())].clone()) }),
+                    _ => Some(all[r.usize(all.len())].clone()),
+                };
+                if let Some(id) = id.or_else(|| Some(all[r.usize(all.len())].clone())) {
+                    script.push(Op { entry: id, rules: vec![] });
+                }
+            }
+            threads.push(script);
+        }
+        strategy = if mode == "sequential" {
+            StrategySpec { kind: "sequential".into(), p: 0, d: 0 }
+        } else {
+            match r.below(8) {
+                0 | 1 => StrategySpec { kind: "uniform".into(), p: 0, d: 0 },
+                2 => StrategySpec { kind: "sticky".into(), p: 20, d: 0 },
+                3 => StrategySpec { kind: "sticky".into(), p: 100, d: 0 },
+                4 => StrategySpec { kind: "sticky".into(), p: 300, d: 0 },
+                5 => StrategySpec { kind: "pct".into(), p: 0, d: 1 },
+                6 => StrategySpec { kind: "pct".into(), p: 0, d: 2 },
+                _ => StrategySpec { kind: "pct".into(), p: 0, d: 3 },
+            }
+        };
+        // a third of the episodes: cut one or two builds down with an I/O fault on an include
+        if r.chance(1, 3) {
+            for _ in 0..r.range(1, 2) {
+                let t = r.usize(threads.len());
+                if threads[t].is_empty() {
+                    continue;
+                }
+                let i = r.usize(threads[t].len());
+                let id = threads[t][i].entry.clone();
+                if let Some(rf) = c.refs.get(&id) {
+                    let cands: Vec<(usize, &(String, String))> = rf.events.iter().enumerate().filter(|(_, (call, _))| call == "open" || call == "read").collect();
+                    if !cands.is_empty() {
+                        let (k, (call, path)) = cands[r.usize(cands.len())];
+                        let nth = rf.events[..k].iter().filter(|(c2, p2)| c2 == call && p2 == path).count() as i64;
+                        let rule = if call == "open" {
+                            let e = ["ENOENT", "EACCES", "EMFILE", "EIO"][r.usize(4)];
+                            RuleSpec::errno("open", path, nth, e, if e == "ENOENT" { "vanish" } else { "open-fail" })
+                        } else {
+                            RuleSpec::errno("read", path, nth, "EIO", "read-fail")
+                        };
+                        threads[t][i].rules.push(rule);
+                    }
+                }
+            }
+        }
+    }
+    // keep only what is used
+    let used: BTreeSet<String> = threads.iter().flatten().map(|o| o.entry.clone()).collect();
+    let mut entries = BTreeMap::new();
+    let mut files = BTreeMap::new();
+    for id in &used {
+        if let Some(e) = c.entries.get(id) {
+            entries.insert(id.clone(), e.clone());
+        }
+        if let Some(fs) = c.tree_files.get(id) {
+            for f in fs {
+                files.insert(f.clone(), c.files[f].clone());
+            }
+        }
+    }
+    Scenario { engine: "multibuild".into(), entries, files, cwd: CWD.into(), threads, strategy, schedule: None, sched_seed: r.next_u64(), hash_seed: r.next_u64(), clock: 1_500_000_000 + r.below(500_000_000), mode: mode.into() }
+}
+
+fn judge_episode(sc: &Scenario, out: &EpisodeOut, refs: &BTreeMap<String, RefOut>, seed: u64) -> Option<Violation> {
+    let mk = |class: &str, expected: &str, observed: Value, sched: Option<Vec<(u8, u32)>>| -> Violation {
+        let mut s2 = sc.clone();
+        if s2.schedule.is_none() {
+            s2.schedule = sched;
+        }
+        Violation {
+            property: "C17".into(),
+            engine: "multibuild".into(),
+            class: class.into(),
+            signature: format!("class={} mode={} threads={}", class, sc.mode, sc.threads.len()),
+            seed,
+            expected: expected.into(),
+            observed,
+            scenario: serde_json::to_value(s2).unwrap(),
+        }
+    };
+    if let Some(e) = &out.error {
+        return Some(mk("episode-did-not-complete", "every build returns", json!({"error": e, "results_so_far": out.results.len()}), Some(out.decisions.clone())));
+    }
+    let expected_ops: usize = sc.threads.iter().map(|t| t.iter().filter(|o| sc.entries.contains_key(&o.entry)).count()).sum();
+    if out.results.len() != expected_ops {
+        return Some(mk("episode-did-not-complete", "every build returns", json!({"results": out.results.len(), "expected": expected_ops}), Some(out.decisions.clone())));
+    }
+    for r in &out.results {
+        if !r.cwd_ok {
+            return Some(mk("cwd-changed", "a build leaves the process working directory as it was", json!({"thread": r.thread, "index": r.index, "entry": r.entry}), Some(out.decisions.clone())));
+        }
+        if r.faulted {
+            continue;
+        }
+        let rf = match refs.get(&r.entry) {
+            Some(x) => x,
+            None => continue,
+        };
+        if r.outcome != rf.outcome {
+            // the history that led here, for the reader
+            let hist: Vec<String> = out.results.iter().filter(|x| x.invoke <= r.ret).map(|x| format!("t{}#{} {} [{}..{}] {}{}", x.thread, x.index, x.entry, x.invoke, x.ret, if x.outcome.fails() { "fails" } else { "builds" }, if x.faulted { " (faulted)" } else { "" })).collect();
+            return Some(mk(
+                "differs-from-the-same-build-alone",
+                "every build equals the same build run alone in a fresh process: images, sizes, messages or error text",
+                json!({"thread": r.thread, "index": r.index, "entry": r.entry, "in_history": r.outcome.short(), "alone": rf.outcome.short(), "history": hist, "switches": out.switches, "fired": out.fired}),
+                Some(out.decisions.clone()),
+            ));
+        }
+    }
+    None
+}
+
+fn run_episode(sc: &Scenario, root: &str) -> Result<EpisodeOut, String> {
+    let v = child_json("mb-run", &json!({"scenario": sc, "root": root}), 180.0)?;
+    serde_json::from_value(v).map_err(|e| e.to_string())
+}
+
+pub fn worker(cfg: &WorkerCfg, emit: &mut dyn FnMut(Violation)) -> Stats {
+    let mut stats = Stats::default();
+    let scratch = match Scratch::new(&format!("mbuild-w{:02}", cfg.worker)) {
+        Ok(s) => s,
+        Err(e) => {
+            stats.harness_errors.push(e.to_string());
+            return stats;
+        }
+    };
+    let root = scratch.root_str();
+    let start = now_secs();
+    let total = cfg.digest_only.unwrap_or(cfg.total);
+    let mut found = 0usize;
+    let mut corpus: Option<Corpus> = None;
+    let mut corpus_gen = u64::MAX;
+    // one corpus serves a contiguous block of run indices; blocks are dealt round-robin to the
+    // workers, so the episode of a run index does not depend on the process layout
+    let per_corpus: u64 = if cfg.digest_only.is_some() { 8 } else { ((cfg.total + cfg.nworkers - 1) / cfg.nworkers).clamp(50, 1500) };
+    let mut g = 0u64;
+    while g < total {
+        if (g / per_corpus) % cfg.nworkers != cfg.worker {
+            g += 1;
+            continue;
+        }
+        if cfg.digest_only.is_none() && now_secs() - start > cfg.deadline_secs {
+            stats.count("stopped_by_deadline", 1);
+            break;
+        }
+        // the corpus is a function of (base seed, corpus generation), not of the worker: the
+        // same global run index means the same episode in every process layout
+        let this_gen = g / per_corpus;
+        if corpus_gen != this_gen {
+            scratch.clear();
+            let cseed = mix(cfg.base_seed, &[0xC17C, this_gen]);
+            let (nf, nt) = if cfg.digest_only.is_some() { (8, 6) } else { (28, 21) };
+            let mut c = gen_corpus(cseed, nf, nt);
+            if let Err(e) = write_files(&scratch.root, &c.files) {
+                stats.harness_errors.push(e);
+                break;
+            }
+            let mut emit2 = |v: Violation| {
+                found += 1;
+                emit(v)
+            };
+            compute_refs(&mut c, &root, &mut stats, &mut emit2, cseed);
+            stats.count("corpus_entries", c.entries.len() as u64);
+            stats.count("corpora", 1);
+            corpus = Some(c);
+            corpus_gen = this_gen;
+        }
+        let c = corpus.as_ref().unwrap();
+        let seed = mix(cfg.base_seed, &[0xC17, g]);
+        stats.first_seed.get_or_insert(seed);
+        stats.last_seed = Some(seed);
+        let sc = gen_episode(c, seed);
+        // private files back to version 0
+        for ids in &c.private {
+            if let Some(id0) = ids.first() {
+                if let Some(e) = c.entries.get(id0) {
+                    apply_rewrite(e, &root);
+                }
+            }
+        }
+        let out = match run_episode(&sc, &root) {
+            Ok(o) => o,
+            Err(e) => {
+                if e.starts_with("crash") || e == "timeout" {
+                    found += 1;
+                    emit(Violation {
+                        property: "C17".into(),
+                        engine: "multibuild".into(),
+                        class: "crash-or-hang-in-history".into(),
+                        signature: format!("class=crash-or-hang-in-history mode={}", sc.mode),
+                        seed,
+                        expected: "entries that build or fail cleanly alone do so in every history".into(),
+                        observed: json!({"what": e}),
+                        scenario: serde_json::to_value(&sc).unwrap(),
+                    });
+                } else {
+                    stats.harness_errors.push(format!("mb-run: {}", e));
+                }
+                g += 1;
+                continue;
+            }
+        };
+        stats.runs += 1;
+        stats.steps += out.steps;
+        stats.count("builds", out.results.len() as u64);
+        for f in &out.fired {
+            let kind = if f.contains(" open ") { if f.ends_with("ENOENT") { "vanish" } else { "open-fail" } } else { "read-fail" };
+            stats.fired(kind);
+        }
+        if !out.fired.is_empty() {
+            stats.runs_with_fired_fault += 1;
+        } else {
+            stats.fault_free_runs += 1;
+        }
+        // probes
+        let sw = |lo: u32, hi: u32| -> bool { out.switch_sites.iter().any(|(s, n)| *s >= lo && *s <= hi && *n > 0) };
+        stats.probe("context_switch_inside_parse", sw(7, 7) || sw(10, 10));
+        stats.probe("context_switch_between_passes", sw(3, 6));
+        stats.probe("context_switch_inside_pass_1_or_2", sw(8, 9));
+        stats.probe("context_switch_inside_macro_expansion", sw(12, 12));
+        stats.probe("context_switch_at_a_libc_call", sw(100, 200));
+        let overlap = out.results.iter().any(|a| out.results.iter().any(|b| a.thread != b.thread && a.invoke < b.ret && b.invoke < a.ret && sc.entries.get(&a.entry).map(|e| &e.family) == sc.entries.get(&b.entry).map(|e| &e.family)));
+        stats.probe("two_builds_of_one_family_overlapping_in_time", overlap);
+        let after_fail = out.results.iter().any(|a| a.index > 0 && out.results.iter().any(|b| b.thread == a.thread && b.index + 1 == a.index && b.outcome.fails()));
+        stats.probe("build_after_a_failed_build_on_the_same_thread", after_fail);
+        let after_fault = out.results.iter().any(|a| a.index > 0 && out.results.iter().any(|b| b.thread == a.thread && b.index + 1 == a.index && b.faulted));
+        stats.probe("build_after_a_fault_killed_build", after_fault);
+        let first_dev = out.results.iter().filter(|x| sc.entries.get(&x.entry).map(|e| e.text.contains(".device") || !e.main.is_empty()).unwrap_or(false)).min_by_key(|x| x.invoke).map(|x| x.thread);
+        stats.probe("devices_table_first_touched_by_a_thread_other_than_0", matches!(first_dev, Some(t) if t != 0));
+        let stale = out.results.iter().any(|a| a.entry.starts_with('v') && !a.entry.ends_with("_0"));
+        stats.probe("include_file_rewritten_then_rebuilt", stale);
+        stats.probe("three_or_more_hash_seeds_in_one_process", sc.threads.len() >= 3);
+        stats.probe("history_of_30_or_more_builds_on_one_thread", sc.threads.iter().any(|t| t.len() >= 30));
+        stats.probe("failing_build_repeated_10_times_or_more", {
+            let mut m: BTreeMap<&str, usize> = BTreeMap::new();
+            for x in &out.results {
+                if x.outcome.fails() {
+                    *m.entry(x.entry.as_str()).or_insert(0) += 1;
+                }
+            }
+            m.values().any(|n| *n >= 10)
+        });
+        if out.foreign_events > 0 {
+            stats.count("foreign_lock_events", out.foreign_events);
+        }
+        let shared_thread = sc.threads.iter().any(|t| t.len() >= 2);
+        let inside_switch = out.switch_sites.iter().any(|(s, n)| *s != sched::SITE_OP_BOUNDARY && *n > 0);
+        let hist_hash = fnv(format!("{:?}", sc.threads.iter().map(|t| t.iter().map(|o| (&o.entry, o.rules.len())).collect::<Vec<_>>()).collect::<Vec<_>>()).as_bytes());
+        if shared_thread || inside_switch {
+            stats.distinct_nontrivial.insert(hist_hash ^ out.interleaving_hash.rotate_left(17));
+        }
+        stats.distinct_states.insert(out.interleaving_hash);
+        stats.count("scheduling_decisions", out.n_decisions);
+        stats.count("context_switches", out.switches);
+        *stats.counters.entry(format!("episodes_{}", sc.mode)).or_insert(0) += 1;
+        *stats.counters.entry(format!("strategy_{}{}", sc.strategy.kind, if sc.strategy.kind == "sticky" { format!("_{}", sc.strategy.p) } else if sc.strategy.kind == "pct" { format!("_{}", sc.strategy.d) } else { String::new() })).or_insert(0) += 1;
+        // the digest covers the schedule, the event log and every outcome
+        let outcomes: Vec<String> = out.results.iter().map(|x| format!("{}:{}:{}", x.thread, x.entry, x.outcome.short().replace(&root, "$R"))).collect();
+        stats.digests.insert(g, out.interleaving_hash ^ out.trace_digest.rotate_left(3) ^ fnv(format!("{:?}", outcomes).as_bytes()));
+        if stats.samples.len() < 3 && (inside_switch && g % 11 == 0) {
+            let mut small = sc.clone();
+            small.files = small.files.into_iter().map(|(k, v)| (k, if v.len() > 300 { format!("{}...", &v[..v.char_indices().take_while(|(i, _)| *i < 300).last().map(|(i, c)| i + c.len_utf8()).unwrap_or(0)]) } else { v })).collect();
+            for e in small.entries.values_mut() {
+                if e.text.len() > 300 {
+                    let cut = e.text.char_indices().take_while(|(i, _)| *i < 300).last().map(|(i, c)| i + c.len_utf8()).unwrap_or(0);
+                    e.text = format!("{}...", &e.text[..cut]);
+                }
+            }
+            stats.samples.push(json!({"scenario": small, "schedule_rle": out.decisions.iter().take(60).collect::<Vec<_>>(), "switches": out.switches, "history": out.results.iter().map(|x| format!("t{}#{} {} [{}..{}] {}", x.thread, x.index, x.entry, x.invoke, x.ret, x.outcome.short().chars().take(80).collect::<String>())).collect::<Vec<_>>()}));
+        }
+        if let Some(v) = judge_episode(&sc, &out, &c.refs, seed) {
+            found += 1;
+            emit(v);
+        }
+        if found >= cfg.max_violations {
+            break;
+        }
+        g += 1;
+    }
+    stats
+}
+
+/// Replay: materialise the files, recompute the references in fresh processes (they belong to
+/// the tree under test, not to the replay file), run the episode, judge.
+pub fn replay(scv: &Value) -> Result<Option<Violation>, String> {
+    let sc: Scenario = serde_json::from_value(scv.clone()).map_err(|e| e.to_string())?;
+    let scratch = Scratch::new("mbuild-w99").map_err(|e| e.to_string())?;
+    let root = scratch.root_str();
+    write_files(&scratch.root, &sc.files)?;
+    let mut refs: BTreeMap<String, RefOut> = BTreeMap::new();
+    let mut first: Option<Violation> = None;
+    for (id, e) in &sc.entries {
+        let a = child_json("ref-one", &json!({"entry": e, "root": root, "cwd": sc.cwd, "hash_seed": 0xA11CEu64, "clock": 1_600_000_000u64}), 60.0);
+        let b = child_json("ref-one", &json!({"entry": e, "root": root, "cwd": sc.cwd, "hash_seed": 0xB0B0B0B0B0u64, "clock": 1_900_000_000u64}), 60.0);
+        if let (Ok(a), Ok(b)) = (a, b) {
+            if let (Ok(a), Ok(b)) = (serde_json::from_value::<RefOut>(a), serde_json::from_value::<RefOut>(b)) {
+                if a.outcome != b.outcome && first.is_none() {
+                    first = Some(Violation {
+                        property: "C17".into(),
+                        engine: "multibuild".into(),
+                        class: "alone-differs-between-hash-seeds".into(),
+                        signature: format!("class=alone-differs-between-hash-seeds kind={}", e.kind),
+                        seed: 0,
+                        expected: "assembling the same source always yields the same result regardless of hash-map iteration order (two fresh processes, two hash seeds and clock origins)".into(),
+                        observed: json!({"seed_a": a.outcome.short(), "seed_b": b.outcome.short()}),
+                        scenario: scv.clone(),
+                    });
+                }
+                refs.insert(id.clone(), a);
+            }
+        }
+    }
+    if first.is_some() {
+        return Ok(first);
+    }
+    // private files start at version 0
+    for (id, e) in &sc.entries {
+        if id.ends_with("_0") {
+            apply_rewrite(e, &root);
+        }
+    }
+    match run_episode(&sc, &root) {
+        Ok(out) => Ok(judge_episode(&sc, &out, &refs, 0)),
+        Err(e) if e.starts_with("crash") || e == "timeout" => Ok(Some(Violation {
+            property: "C17".into(),
+            engine: "multibuild".into(),
+            class: "crash-or-hang-in-history".into(),
+            signature: format!("class=crash-or-hang-in-history mode={}", sc.mode),
+            seed: 0,
+            expected: "entries that build or fail cleanly alone do so in every history".into(),
+            observed: json!({"what": e}),
+            scenario: scv.clone(),
+        })),
+        Err(e) => Err(e),
+    }
+}
+
+pub fn shrink(scv: &Value) -> Vec<Value> {
+    let sc: Scenario = match serde_json::from_value(scv.clone()) {
+        Ok(s) => s,
+        Err(_) => return vec![],
+    };
+    let mut out = vec![];
+    let mut push = |mut s: Scenario| {
+        // drop entries and files that are no longer used
+        let used: BTreeSet<String> = s.threads.iter().flatten().map(|o| o.entry.clone()).collect();
+        s.entries.retain(|k, _| used.contains(k));
+        out.push(serde_json::to_value(s).unwrap())
+    };
+    // fewer, longer run segments: first try without any context switch inside operations
+    if sc.schedule.is_some() || sc.strategy.kind != "sequential" {
+        let mut s = sc.clone();
+        s.schedule = None;
+        s.strategy = StrategySpec { kind: "sequential".into(), p: 0, d: 0 };
+        s.sched_seed = 0;
+        push(s);
+    }
+    // drop fault rules
+    for (t, th) in sc.threads.iter().enumerate() {
+        for (i, op) in th.iter().enumerate() {
+            if !op.rules.is_empty() {
+                let mut s = sc.clone();
+                s.threads[t][i].rules.clear();
+                push(s);
+            }
+        }
+    }
+    // drop threads
+    if sc.threads.len() > 1 {
+        for t in 0..sc.threads.len() {
+            let mut s = sc.clone();
+            s.threads.remove(t);
+            if s.schedule.is_some() {
+                s.schedule = None;
+            }
+            push(s);
+        }
+    }
+    // drop operations: halves, then single ones
+    for (t, th) in sc.threads.iter().enumerate() {
+        if th.len() > 3 {
+            let h = th.len() / 2;
+            for (a, b) in [(0, h), (h, th.len())] {
+                let mut s = sc.clone();
+                s.threads[t].drain(a..b);
+                s.schedule = None;
+                push(s);
+            }
+        }
+    }
+    for (t, th) in sc.threads.iter().enumerate() {
+        for i in 0..th.len().min(40) {
+            let mut s = sc.clone();
+            s.threads[t].remove(i);
+            s.schedule = None;
+            push(s);
+        }
+    }
+    // shorter schedule: merge neighbouring segments
+    if let Some(sch) = &sc.schedule {
+        if sch.len() > 1 {
+            for i in 0..sch.len().min(30) {
+                let mut s2 = sch.clone();
+                s2.remove(i);
+                let mut s = sc.clone();
+                s.schedule = Some(s2);
+                push(s);
+            }
+        }
+    }
+    // drop source lines of string programs (halves)
+    for (id, e) in &sc.entries {
+        if e.kind == "str" {
+            let lines: Vec<&str> = e.text.lines().collect();
+            if lines.len() > 2 {
+                let h = lines.len() / 2;
+                for keep in [&lines[..h], &lines[h..]] {
+                    let mut s = sc.clone();
+                    s.entries.get_mut(id).unwrap().text = keep.join("\n") + "\n";
+                    push(s);
+                }
+                for i in 0..lines.len().min(50) {
+                    let t = lines[i].trim();
+                    if t.starts_with(".if") || t.starts_with(".endif") || t.starts_with(".else") || t.starts_with(".elif") || t.starts_with(".macro") || t.starts_with(".endm") || t.starts_with("#if") {
+                        continue;
+                    }
+                    let mut l2 = lines.clone();
+                    l2.remove(i);
+                    let mut s = sc.clone();
+                    s.entries.get_mut(id).unwrap().text = l2.join("\n") + "\n";
+                    push(s);
+                }
+            }
+        }
+    }
+    if sc.hash_seed != 1 {
+        let mut s = sc.clone();
+        s.hash_seed = 1;
+        push(s);
+    }
+    out
+}
+
 /// development aid: print generated programs and what they build to
 pub fn dump_programs(seed: u64, n: usize) {
-    use crate::proggen;
-    use crate::rng::Rng;
     let mut r = Rng::new(seed);
     let mut ok = 0;
-    let mut by_err: std::collections::BTreeMap<String, usize> = Default::default();
+    let mut by_err: BTreeMap<String, usize> = Default::default();
     for i in 0..n {
         let fam = proggen::family(&mut r, 3, "x");
         for p in fam {
@@ -29,16 +1066,6 @@ pub fn dump_programs(seed: u64, n: usize) {
             };
             if i < 2 {
                 println!("---- intent={} -> {}\n{}", p.intent, key, t);
-            }
-            if let Ok(Err(e)) = &res {
-                let es = e.to_string();
-                if let Some(rest) = es.strip_prefix("failed to parse line: ") {
-                    let n: usize = rest.split(' ').next().unwrap().parse().unwrap_or(1);
-                    println!("PARSEFAIL: {}", t.lines().nth(n - 1).unwrap_or("?"));
-                }
-                if es.contains("can not be found") && p.intent == "ok" {
-                    println!("NOTFOUND: {}", es);
-                }
             }
             let k2: String = key.chars().map(|c| if c.is_ascii_digit() { '#' } else { c }).collect();
             *by_err.entry(k2).or_insert(0) += 1;
